@@ -202,6 +202,8 @@ def run(col, configs, tier):
         guarded(col, rule_tables, facts)
         guarded(col, rule_operands, facts)
         guarded(col, rule_default_exact, facts)
+        from rules import tbl_write_integer as I6
+        guarded(col, I6.rule_digit_tables, facts)
         from rules import c14, c08
         guarded(col, c14.rule_binary_round, facts)
         guarded(col, c08.rule_mask_shift, facts)
